@@ -24,3 +24,4 @@ PROP = {
     "assumptions": STD_ASSUME + ["spectra are separated in magnitude (ratios 0.1..0.8 as the property's quantifier states); cases whose rounded matrix violates |lambda_i| <= 0.85 |lambda_(i+1)| are counted as outside",
                                  "QR cases with kappa_F > 1e8 are counted as outside (quantifier: condition number up to 1e6)"],
 }
+PROP["level_text"] += ' Spectra include traceless ones that cancel exactly in binary, block matrices come with permuted (interleaved) blocks, Eigenvectors is compared with Eigensystem up to the overall sign; witness matrices of repaired defect D35.'
